@@ -67,7 +67,8 @@ def xgcdPrim (a b : Nat) : Except PanicKind (Nat × Int × Int) :=
   else if a = 0 then .ok (b, 0, 1)
   else if b = 0 then .ok (a, 1, 0)
   else
-    let shift := trailingZeros (a ||| b)
+    -- `(a | b).trailing_zeros()` = the smaller of the two trailing-zero counts
+    let shift := min (trailingZeros a) (trailingZeros b)
     let a := a / 2 ^ shift
     let b := b / 2 ^ shift
     if a ≥ b then
